@@ -126,6 +126,20 @@ fn fuzzy(rep: &mut Report, d: &Arc<dyn Dictionary>, name: &str, words: &[Vec<cha
             return;
         }
     };
+    // what the spell checker offers is this result, re-ranked: the same words, nothing dropped or added
+    match guarded(|| harper_core::spell::suggest_correct_spelling(q, cap, bound, d).iter().map(|w| w.to_vec()).collect::<Vec<_>>()) {
+        Ok(mut sug) => {
+            let mut want: Vec<Vec<char>> = res.iter().map(|(w, _)| w.clone()).collect();
+            sug.sort();
+            want.sort();
+            if sug != want {
+                rep.finding("C15", &format!("suggest.differs-from-fuzzy@{name}/{fam}"), size, wit, || {
+                    format!("suggest_correct_spelling returns {:?}; fuzzy_match with the same bound and cap returns {:?}", sug.iter().map(|w| st(w)).collect::<Vec<_>>(), want.iter().map(|w| st(w)).collect::<Vec<_>>())
+                });
+            }
+        }
+        Err(p) => rep.finding("C15", &format!("suggest.panic@{name}/{fam}"), size, wit, || p.msg.clone()),
+    }
     let qn = norm(q);
     let ql = lower(&qn);
     if res.len() > cap {
@@ -469,6 +483,53 @@ pub fn worker(ctx: &mut Ctx) {
                             for (i, d) in b.dicts.iter().enumerate() {
                                 fuzzy(&mut rep, d, b.names[i], &words, q, bound, 10, "special-casing", true);
                             }
+                        }
+                    }
+                }
+            }
+            ctx.report = rep;
+        }
+        // words longer than anything in the curated list (place names, chemical names, identifiers a user added), and
+        // queries one to three edits away from them: length must not matter to any back-end or to the suggestions
+        if ctx.shard == 3 % ctx.nshards {
+            let mut rep = std::mem::take(&mut ctx.report);
+            let mut long: Vec<Vec<char>> = vec![
+                "llanfairpwllgwyngyllgogerychwyrndrobwllllantysiliogogogoch".chars().collect(),
+                "pneumonoultramicroscopicsilicovolcanoconiosisesque".chars().collect(),
+                "taumatawhakatangihangakoauauotamateaturipukakapikimaungahoronukupokaiwhenuakitanatahu".chars().collect(),
+                "methionylthreonylthreonylglutaminylarginyltyrosylglutamylserylleucyl".chars().collect(),
+            ];
+            for n in [50usize, 52, 53, 54, 55, 56, 57, 58, 60, 64, 80] {
+                long.push((0..n).map(|i| (b'a' + ((i * 7 + n) % 23) as u8) as char).collect());
+            }
+            let mut queries: Vec<Vec<char>> = Vec::new();
+            for w in &long {
+                queries.push(w.clone());
+                let mut a = w.clone();
+                a[w.len() / 2] = 'z';
+                queries.push(a.clone());
+                a.remove(3);
+                queries.push(a.clone());
+                a.insert(w.len() - 5, 'q');
+                a.push('s');
+                queries.push(a);
+                let mut b = w.clone();
+                b.push('x');
+                queries.push(b);
+            }
+            let words: Vec<Vec<char>> = {
+                let mut m = MutableDictionary::new();
+                m.extend_words(long.iter().map(|w| (w.clone(), WordMetadata::default())));
+                let mut v: Vec<Vec<char>> = m.words_iter().map(|w| w.to_vec()).collect();
+                v.sort();
+                v
+            };
+            if let Ok(b) = guarded(|| backends(&words)) {
+                for q in &queries {
+                    agree(&mut rep, &b, &words, q, "long-words");
+                    for bound in 1..=3u8 {
+                        for (i, d) in b.dicts.iter().enumerate() {
+                            fuzzy(&mut rep, d, b.names[i], &words, q, bound, 10, "long-words", true);
                         }
                     }
                 }
